@@ -131,6 +131,16 @@ Classify(db, viols) ==
      THEN <<v[1], v[2], "F2-stale-implied-need-after-edge-loss">>
    ELSE v : v \in viols}
 
+\* F25, second consequence: the completion of the job that was in flight is applied to the row
+\* that define_step re-created meanwhile: PENDING -> SUCCEEDED/FAILED without a dispatch, and a
+\* SUCCEEDED step whose re-created outputs are not BUILT
+LabelRedef(old, new, viols) ==
+  {IF /\ v[2] \in aux.redefInflight
+      /\ \/ v[1] = "succeeded_outputs_built"
+         \/ /\ v[1] = "step_move" /\ ~IsNoState(old) /\ v[2] \in Keys(old)
+            /\ old.nodes[v[2]].sstate = "PENDING" /\ new.nodes[v[2]].sstate \in {"SUCCEEDED", "FAILED"}
+   THEN <<v[1], v[2], "F25-step-redefined-while-its-job-is-in-flight">> ELSE v : v \in viols}
+
 SettleInflight(old, new, infl) ==
   {s \in infl : s \in Keys(new) /\ s \in Keys(old)
        /\ ~(old.nodes[s].sstate \in {"RUNNING", "CHECKING"}
@@ -166,7 +176,7 @@ OnCommit(e, lineNo) ==
                    s \in {s \in nowOk : jobsOf(s) # {} /\ lastJob(s) \in aux.tainted}}
     IN
     /\ st' = new
-    /\ bad' = bad \o Mk(e, lineNo, "C09", wf \cup tr) \o Mk(e, lineNo, "C08", own)
+    /\ bad' = bad \o Mk(e, lineNo, "C09", LabelRedef(st, new, wf \cup tr)) \o Mk(e, lineNo, "C08", own)
                   \o Mk(e, lineNo, "C10", Classify(new, cw) \cup df)
                   \o Mk(e, lineNo, "C03", c03)
     /\ aux' = [aux EXCEPT
@@ -408,6 +418,10 @@ OnPhaseEnd(e, lineNo) ==
         \cup {<<"summary_partition", x>> : x \in {1} \ {i \in {1} :
              e.draining \/ e.summary.ntotal = 0 \/
              e.summary.attr_sum + e.summary.cyclic = e.summary.ntotal}}
+        \* what is shown accounts for every pending step (rows of different dead-end files may overlap,
+        \* so the shown counts may exceed the total, never fall short of it)
+        \cup {<<"summary_leaves_steps_unexplained", x>> : x \in {1} \ {i \in {1} :
+             e.draining \/ e.summary.ntotal = 0 \/ e.summary.shown_sum >= e.summary.ntotal}}
         \cup {<<"summary_exactly_one_cause", x>> : x \in {1} \ {i \in {1} :
              e.draining \/ e.summary.ntotal = 0 \/ e.summary.attr_unique}}
       c11 == IF e.rc = 0 \/ e.rc = 8
@@ -561,7 +575,12 @@ OnFinalizeEnd(e, lineNo) ==
 
 OnFault(e, lineNo) ==
   LET c == IF e.ev = "hang" THEN {<<"build_phase_never_ends", "">>}
-           ELSE IF e.ev = "director_exc" THEN {<<"director_raised", e.exc>>}
+           ELSE IF e.ev = "director_exc" THEN
+             \* F25: the second completion of a step whose row was re-created while its job was in
+             \* flight is refused by update_file_hashes and the director dies
+             {<<"director_raised", e.exc,
+                IF e.second_completion_of # "" /\ StepKey(e.second_completion_of) \in aux.redefInflight
+                THEN "F25-step-redefined-while-its-job-is-in-flight" ELSE "">>}
            ELSE IF e.ev = "step_exc" /\ ~e.usage THEN {<<"internal_error_in_step", e.exc>>}
            ELSE {}
       p == IF e.ev = "hang" THEN "C10" ELSE "C09"
